@@ -539,6 +539,59 @@ def check_c07(tier, seed):
                             b.fail("C07.bounded.not_bit_identical", dict(desc, iteration=it, leaf=i), "gradients differ between identical iterations")
                 prev = cur
             b.case(dict(desc, contract="repeat"))
+    # every kind of non-view consumer nulls the gradients of *all* its tensor operands (also when NumPy's result
+    # happens to carry a .base: mixed slice+advanced indexing, pooling, reshape of a non-contiguous tensor, in-place on a view)
+    import mygrad.nnet as nn
+
+    consumers = [
+        ("x[:, [0, 2]]", lambda x, y: x[:, [0, 2]], "x"), ("x[[0, 1]]", lambda x, y: x[[0, 1]], "x"), ("x[x > 0]", lambda x, y: x[x > 0], "x"),
+        ("max_pool(x)", lambda x, y: nn.max_pool(x, (2,), 2), "x"), ("mg.sum(x, axis=0)", lambda x, y: mg.sum(x, axis=0), "x"),
+        ("x + y", lambda x, y: x + y, "xy"), ("mg.einsum('ij,ij->ij', x, y)", lambda x, y: mg.einsum("ij,ij->ij", x, y), "xy"), ("mg.matmul(x, y.T)", lambda x, y: mg.matmul(x, y.T), "xy-yview"),
+        ("mg.concatenate((x, y))", lambda x, y: mg.concatenate((x, y)), "xy"), ("mg.stack((x, y))", lambda x, y: mg.stack((x, y)), "xy"), ("mg.where(x > 0, x, y)", lambda x, y: mg.where(x > 0, x, y), "xy"),
+        ("w = +x; v = w[0]; v += y", None, "y-inplace-view"), ("w = +x; w[0] = y", None, "y-setitem"), ("w = +x; mg.add(w, y2, out=w)", None, "y-out"),
+        ("mg.repeat(x, 2)", lambda x, y: mg.repeat(x, 2), "x"), ("mg.clip(x, -1, 1)", lambda x, y: mg.clip(x, -1, 1), "x"), ("nn.softmax(x)", lambda x, y: nn.softmax(x), "x"),
+        ("mg.reshape(x[:, ::2], (4,))", lambda x, y: mg.reshape(x[:, ::2], (4,)), "none"),
+    ]
+    for nm, f, who in consumers:
+        x = mg.tensor(rng.uniform(-1, 1, size=(2, 4)))
+        y = mg.tensor(rng.uniform(-1, 1, size=(4,)))
+        y2 = mg.tensor(rng.uniform(-1, 1, size=(2, 4)))
+        vx = x[0]
+        ((x * x).sum() + (y * 3.0).sum() + (y2 * y2).sum()).backward()
+        desc = dict(staleness_consumer=nm)
+        b.count("non-view consumer nulls operand gradients")
+        if x.grad is None or y.grad is None or vx.grad is None or y2.grad is None:
+            b.error(f"{nm}: setup failed")
+            continue
+        try:
+            if f is not None:
+                yy = y2 if who.startswith("xy") else y
+                out = f(x, yy)
+            elif who == "y-inplace-view":
+                w = +x
+                v = w[0]
+                v += y
+            elif who == "y-setitem":
+                w = +x
+                w[0] = y
+            else:
+                w = +x
+                mg.add(w, y2, out=w)
+        except Exception as e:
+            b.error(f"{nm}: {type(e).__name__}: {e}")
+            continue
+        bad = []
+        if who in ("x", "xy", "xy-yview") and (x.grad is not None or vx.grad is not None):
+            bad.append("x / its view")
+        if who == "xy" and y2.grad is not None:
+            bad.append("second operand")
+        if who in ("y-inplace-view", "y-setitem") and y.grad is not None:
+            bad.append("the value operand of the in-place update")
+        if who == "y-out" and y2.grad is not None:
+            bad.append("the operand of the out= update")
+        if bad:
+            b.fail("C07.bounded.stale_after_nonview_consumer", desc, f"gradient of {bad} still readable after the tensor was consumed by a non-view operation / in-place update")
+        b.case(desc)
     # staleness: a leaf's gradient persists until the leaf is next used in a non-view op / in-place / backward
     for how in ("non-view-op", "in-place", "another-backward", "view-only", "null_grad"):
         x = mg.tensor(rng.uniform(1, 2, size=(4,)))
